@@ -170,8 +170,6 @@ std::string printConnections(const ComponentMap &componentMap, const VariableMap
 std::string Printer::PrinterImpl::printMath(const std::string &math)
 {
     static const std::string wrapElementName = "math_wrap_as_single_root_element";
-    static const std::regex before(">[\\s\n\t]*");
-    static const std::regex after("[\\s\n\t]*<");
     static const std::regex xmlDeclaration(R"|(<\?xml[[:space:]]+version=.*\?>)|");
 
     XmlDocPtr xmlDoc = std::make_shared<XmlDoc>();
@@ -187,9 +185,30 @@ std::string Printer::PrinterImpl::printMath(const std::string &math)
             result += childNode->convertToStrippedString();
             childNode = childNode->next();
         }
-        // Clean whitespace in the math.
-        result = std::regex_replace(result, before, ">");
-        return std::regex_replace(result, after, "<");
+        // Clean whitespace in the math: remove the whitespace that follows a '>' or precedes a '<' (in a single pass
+        // over the text: a regular expression recurses once per character of a run of whitespace).
+        static const std::string whitespace = " \f\n\r\t\v";
+        std::string cleanResult;
+        cleanResult.reserve(result.size());
+        size_t i = 0;
+        while (i < result.size()) {
+            if (whitespace.find(result[i]) == std::string::npos) {
+                cleanResult.push_back(result[i]);
+                ++i;
+            } else {
+                auto end = result.find_first_not_of(whitespace, i);
+                if (end == std::string::npos) {
+                    end = result.size();
+                }
+                bool followsTag = !cleanResult.empty() && (cleanResult.back() == '>');
+                bool precedesTag = (end < result.size()) && (result[end] == '<');
+                if (!followsTag && !precedesTag) {
+                    cleanResult.append(result, i, end - i);
+                }
+                i = end;
+            }
+        }
+        return cleanResult;
     } else {
         for (size_t i = 0; i < xmlDoc->xmlErrorCount(); ++i) {
             auto issue = Issue::IssueImpl::create();
